@@ -5,6 +5,8 @@
 -/
 import Lemmas.BreakIdem
 import Lemmas.FillShape
+import Lemmas.HyphenPieces
+import Lemmas.PipelineFacts
 namespace TW
 
 theorem noBreakInside_prefix : ∀ (a b : Text), noBreakInside (a ++ b) = true → noBreakInside a = true
@@ -111,5 +113,76 @@ theorem findWordsAscii_single (cw : Char → Nat) (l : Text) (hne : l ≠ []) (h
   rw [this]
   have he : l.isEmpty = false := by cases l <;> simp_all
   simp [asciiGo, he, from_last cw l hsp]
+
+/-- a member of a list of texts is a contiguous part of the concatenation -/
+theorem mem_flatten_split (L : List Text) (x : Text) (h : x ∈ L) : ∃ A B, L.flatten = A ++ x ++ B := by
+  obtain ⟨l1, l2, rfl⟩ := List.append_of_mem h
+  exact ⟨l1.flatten, l2.flatten, by simp⟩
+
+/-- a piece of a broken word is a contiguous part of it -/
+theorem breakApart_part (cw : Char → Nat) (limit : Nat) (w : Word) :
+    ∀ p ∈ breakApart cw limit w, ∃ A B, w.word = A ++ p.word ++ B := by
+  intro p hp
+  have hflat := breakGo_flatten cw limit w.ws w.pen .normal [] 0 w.word
+  simp only [List.nil_append] at hflat
+  unfold breakApart at hp
+  obtain ⟨A, B, h⟩ := mem_flatten_split _ p.word (List.mem_map.mpr ⟨p, hp, rfl⟩)
+  exact ⟨A, B, by rw [← hflat, h]⟩
+
+/-- the pieces of one split word are contiguous parts of it -/
+theorem splitOK_part (cw : Char → Nat) (w : Word) (pre : Text) (pts : List Nat) (ps : List Word)
+    (hok : SplitOK cw w pre pts ps) : ∀ p ∈ ps, ∃ A B, w.word = A ++ p.word ++ B := by
+  induction pts generalizing pre ps with
+  | nil =>
+    match ps, hok with
+    | [p], hok =>
+      intro x hx; simp only [List.mem_singleton] at hx; subst hx
+      exact ⟨pre, [], by simpa using hok.2.2.2.symm⟩
+  | cons idx pts ih =>
+    match ps, hok with
+    | p :: ps', hok =>
+      obtain ⟨_, _, _, _, ⟨post, h5⟩, h6⟩ := hok
+      intro x hx
+      rcases List.mem_cons.mp hx with rfl | hx
+      · exact ⟨pre, post, h5⟩
+      · exact ih (pre ++ p.word) ps' h6 x hx
+
+/-- what is known of every piece of `split_words` with a built-in splitter: a contiguous part of
+    a word, without a split point of its own -/
+theorem splitWords_pieces (env : Env) (sp : Splitter) (hb : Builtin sp) (ws sw : List Word)
+    (h : splitWords env sp ws = some sw) :
+    ∀ s ∈ sw, (∃ w ∈ ws, ∃ A B, w.word = A ++ s.word ++ B) ∧ sp.points env.isAlnum s.word = [] := by
+  induction ws generalizing sw with
+  | nil => simp [splitWords] at h; subst h; simp
+  | cons w rest ih =>
+    simp only [splitWords] at h
+    split at h
+    · next a b ha hb' =>
+      simp only [Option.some.injEq] at h; subst h
+      intro s hs
+      rcases List.mem_append.mp hs with hs | hs
+      · cases sp with
+        | none =>
+          simp only [Splitter.points, splitOne, or_true, if_true] at ha
+          split at ha
+          · next t ht =>
+            simp only [Option.some.injEq] at ha; subst ha
+            simp only [List.mem_singleton] at hs; subst hs
+            have : t = w.word := by
+              have := sliceFrom?_append [] w.word
+              simp only [List.nil_append, blen_nil] at this
+              rw [this] at ht; simpa using ht.symm
+            exact ⟨⟨w, by simp, [], [], by simp [this]⟩, rfl⟩
+          · simp at ha
+        | hyphen =>
+          have hok := splitOne_ok env.cw w _ 0 [] w.word rfl rfl
+            (fun i hi => (hyphenPoints_boundary env.isAlnum w.word i hi).choose_spec.choose_spec.2.2)
+            (Or.inr rfl) a ha
+          obtain ⟨A, B, e⟩ := splitOK_part env.cw w [] _ a hok s hs
+          exact ⟨⟨w, by simp, A, B, e⟩, splitOne_pointFree env.cw env.isAlnum w a ha s hs⟩
+        | custom f => exact absurd hb (by simp [Builtin])
+      · obtain ⟨⟨w', hw', r⟩, h2⟩ := ih b hb' s hs
+        exact ⟨⟨w', by simp [hw'], r⟩, h2⟩
+    · simp at h
 
 end TW
